@@ -142,7 +142,7 @@ def run(tier: str) -> int:
                                  replay={"date": date, "data": popgen.frame_to_json(df)})
             if not ok:
                 continue
-            singles = rnd.sample(nodes, 25 if quick else len(nodes))
+            singles = rnd.sample(nodes, 25 if quick else min(len(nodes), 90))      # thorough: every node is requested alone on some population / date
             sets = [[t] for t in singles] + [rnd.sample(nodes, rnd.randint(2, 12)) for _ in range(10 if quick else 60)]
             for T in sets:
                 ok, res = r.attempt(f"simulate(targets={T[:3]}…) at {date}", popgen.simulate, df, date, targets=T,
